@@ -66,6 +66,10 @@ class Model:
             if isinstance(body, tuple) and body and body[0] == "tuple" and len(body) == 2 and isinstance(body[1], tuple):
                 return PyTuple(list(body[1]))
             return body
+        # "some element": the abstraction of a symbolic loop forgets the order of the walk, so an element of X[::-1] / reversed(X) is an element of X
+        if isinstance(it_t, tuple) and len(it_t) == 3 and it_t[0] == "getitem" and it_t[2] == ("slice", (None, None, -1)):
+            self.log("reversed-walk", None, seq=it_t[1])
+            return ("elem", it_t[1])
         return ("elem", it_t)
 
     def unpack_item(self, v: Any, base: T.Term, i: int, n: int) -> Any:
